@@ -9,6 +9,7 @@ def text_edit(old, new):
         return src.replace(old, new, 1) if old in src else None
     return edit
 MUTANTS = [
+    Mutant('omega_remove_drops_newline', 'src/pharmpy/model/external/nonmem/records/omega_record.py', text_edit("                if in_keep or node.rule == 'NEWLINE':", "                if in_keep:"), 'P9', 'line break dropped with the item'),
     Mutant('omega_split_no_reset', 'src/pharmpy/model/external/nonmem/records/omega_record.py', text_edit("                            node = base_node\n", "").__call__ and (lambda src: src.replace("                        base_node = node.remove('n')", "                        node = node.remove('n')", 1).replace("                            node = base_node\n", "", 1) if "node = base_node" in src else None), 'P7', 'FIX edit carried to next repeat'),
     Mutant('eta_number_hoisted', 'src/pharmpy/model/external/nonmem/update.py', (lambda src: src.replace("                kept.append(newrec)\n            eta_number += len(rvs)\n        elif op == -1:", "                kept.append(newrec)\n        elif op == -1:", 1).replace("                recindex += 1\n            eta_number += len(rvs)\n        if recindex < len(records) and diag_index", "                recindex += 1\n        eta_number += len(rvs)\n        if recindex < len(records) and diag_index", 1) if "            eta_number += len(rvs)\n        elif op == -1:" in src else None), 'P8', 'counter advances for removed distributions'),
     Mutant('lcs_tie_delete_last', 'src/pharmpy/internals/sequence/lcs.py', text_edit("    elif c[i + 1][j] >= c[i][j + 1]:", "    elif c[i + 1][j] > c[i][j + 1]:"), 'P6', 'tie emits the deletion last'),
